@@ -314,7 +314,8 @@ def gen_corruption(seed):
             f = rng.choice(lay["zone_fields"])
             reg = "overlong-small-zone"
         off = rng.randrange(f["data_start"], max(f["end"] - k, f["data_start"] + 1))
-        want = [0x80] * (k - 1) + [rng.choice([0, 0, 1, 2])]
+        v = rng.choice([0, 0, 1, 2])
+        want = [v | 0x80] + [0x80] * (k - 2) + [0x00]  # over-long encoding of v in k bytes
         plan = [["sub", off + i, b] for i, b in enumerate(want) if off + i < len(data) and data[off + i] != b]
         if plan:
             return {
@@ -434,13 +435,22 @@ def tier_layout(tier, master_seed):
                 for v in (0, 1, 2, 3, 0x80, 0xFF):
                     if fs[fi][off] != v:
                         sweep.append((fi, off, v))
+            if tier == "thorough":
+                # deeper, and with the two-byte over-long encodings of the small marker values (81 00 = 1, 82 00 = 2, 80 00 = 0)
+                for back in range(2, 41):
+                    off = f["end"] - back
+                    if off <= f.get("body_start", f["data_start"]):
+                        continue
+                    for v in (0x80, 0x81, 0x82):
+                        sweep.append((fi, off, (v, 0x00)))
     n = len(corp) + len(truncs) + len(sweep) + n_corrupt
 
     def case(k):
         rs = derive_seed(master_seed, PROP, k)
         if len(corp) + len(truncs) <= k < len(corp) + len(truncs) + len(sweep):
             fi, off, v = sweep[k - len(corp) - len(truncs)]
-            return {"prop": PROP, "seed": rs, "mode": "sweep", "file": fi, "plan": [["sub", off, v]], "regions": ["zone-tail-sweep"],
+            plan = [["sub", off, v]] if isinstance(v, int) else [["sub", off + i, b] for i, b in enumerate(v)]
+            return {"prop": PROP, "seed": rs, "mode": "sweep", "file": fi, "plan": plan, "regions": ["zone-tail-sweep"],
                     "all_ids": False, "extra_ids": 0, "ids_seed": 3, "tracemalloc": False}  # fmt: skip
         if k >= len(corp) + len(truncs) + len(sweep):
             return gen_corruption(rs)
